@@ -305,4 +305,36 @@ class NodeStart(Unit):
         ctx.ensure("the first scheduling task is queued on the node's own executor", z3.BoolVal(len(subs) == 1 and subs[0].fn == "push_scheduled_ts" and subs[0].target.oid == n.oid))
 
 
-UNITS += [NodeStart()]
+
+class AsyncRunUntilSupervisor(Unit):
+    """AsyncGraph.run_until_supervisor: blocks on the OLDEST pending observation, and the graph state it returns is every node's current step state with the supervisor's
+    replaced by that observation (episode taken from it)"""
+    name = "AsyncGraph.run_until_supervisor"
+    target = aw.AS + "::AsyncGraph.run_until_supervisor"
+    props = ("C02", "C09x", "C06")
+
+    def run(self, ctx):
+        ex = ctx.ex
+        obs1, obs2 = mk_step_state(ctx, "obs1", []), mk_step_state(ctx, "obs2", [])
+        f1 = Rec("Future", dict(_result=obs1, _done=True, _cancelled=False))
+        f2 = Rec("Future", dict(_result=obs2, _done=True, _cancelled=False))
+        pending = [f1, f2]
+        sync = Rec("_Synchronizer", dict(observation=pending), module=None)
+        ssa, sss = mk_step_state(ctx, "a", []), mk_step_state(ctx, "sup_old", [])
+        na = Rec("_AsyncNodeWrapper", dict(_step_state=ssa), module=None)
+        nsup = Rec("_AsyncNodeWrapper", dict(_step_state=sss), module=None)
+        g = Rec("AsyncGraph", dict(_initial_step=True, supervisor=Rec("BaseNode", dict(name="sup"), module=None), _async_nodes={"a": na, "sup": nsup}, _synchronizer=sync), module=aw.AS)
+        gs_in = z3.Const("gs_in", Leaf)
+        ret = ctx.call(self_obj=g, args=[gs_in])
+        ok = isinstance(ret, Rec) and ret.cls == "GraphState"
+        ctx.ensure("returns a graph state", z3.BoolVal(ok))
+        ctx.ensure("C02 exactly the oldest pending observation is consumed (the next one stays queued, in order)", z3.BoolVal(len(pending) == 1 and pending[0] is f2))
+        ctx.ensure("the graph is past its initial step afterwards", z3.BoolVal(g.f["_initial_step"] is False))
+        if not ok:
+            return
+        ctx.ensure("C06/C09 the supervisor's part of the returned state is that observation (rng, state, params, inputs, seq, ts), the episode is the observation's",
+                   z3.And(*[toz(aw.same(ret.f[k]["sup"], obs1.f[k])) for k in ("rng", "state", "params", "inputs", "seq", "ts")], toz(ret.f["eps"]) == obs1.f["eps"]))
+        ctx.ensure("every other node contributes its own current step state", z3.And(*[toz(aw.same(ret.f[k]["a"], ssa.f[k])) for k in ("rng", "state", "params", "inputs", "seq", "ts")], z3.BoolVal(set(ret.f["seq"]) == {"a", "sup"})))
+
+
+UNITS += [NodeStart(), AsyncRunUntilSupervisor()]
